@@ -58,6 +58,12 @@ func (d Decimal) Ceil(dp int) Decimal {
 		return zero(d.Signbit())
 	}
 
+	if dp < -maxBiasedExponent-maxDigits-1 {
+		// 10**-dp already exceeds every finite value by more than maxDigits
+		// digits; clamping keeps the arithmetic below from overflowing.
+		dp = -maxBiasedExponent - maxDigits - 1
+	}
+
 	dp = dp*-1 + exponentBias
 	iexp := int(exp)
 
@@ -68,6 +74,10 @@ func (d Decimal) Ceil(dp int) Decimal {
 	if iexp < dp-maxDigits {
 		if d.Signbit() {
 			return zero(d.Signbit())
+		}
+
+		if dp > maxBiasedExponent {
+			return inf(false)
 		}
 
 		return compose(false, uint128{1, 0}, int16(dp))
@@ -139,6 +149,12 @@ func (d Decimal) Floor(dp int) Decimal {
 		return zero(d.Signbit())
 	}
 
+	if dp < -maxBiasedExponent-maxDigits-1 {
+		// 10**-dp already exceeds every finite value by more than maxDigits
+		// digits; clamping keeps the arithmetic below from overflowing.
+		dp = -maxBiasedExponent - maxDigits - 1
+	}
+
 	dp = dp*-1 + exponentBias
 	iexp := int(exp)
 
@@ -149,6 +165,10 @@ func (d Decimal) Floor(dp int) Decimal {
 	if iexp < dp-maxDigits {
 		if !d.Signbit() {
 			return zero(d.Signbit())
+		}
+
+		if dp > maxBiasedExponent {
+			return inf(true)
 		}
 
 		return compose(true, uint128{1, 0}, int16(dp))
@@ -219,6 +239,12 @@ func (d Decimal) Round(dp int, mode RoundingMode) Decimal {
 
 	if sig[0]|sig[1] == 0 {
 		return zero(d.Signbit())
+	}
+
+	if dp < -maxBiasedExponent-maxDigits-1 {
+		// 10**-dp already exceeds every finite value by more than maxDigits
+		// digits; clamping keeps the arithmetic below from overflowing.
+		dp = -maxBiasedExponent - maxDigits - 1
 	}
 
 	dp = dp*-1 + exponentBias
